@@ -52,7 +52,8 @@ PROPS = {
     ),
     "C08": dict(
         lean=["Rscp.Props.C08", "Rscp.Tie.Client"],
-        streams=[dict(name="hist", quick=250, thorough=5000, thorough_seeds=3)],
+        streams=[dict(name="hist", quick=250, thorough=5000, thorough_seeds=3),
+                 dict(name="tcp", quick=24, thorough=600, thorough_seeds=2)],
         trusted_base=["token-level abstraction of the byte stream: one well-formed reply frame = one token (justified by C03 chunking and C07)",
                       "peer assumption of the property: the peer answers each request it receives once and in order"],
     ),
